@@ -18,6 +18,8 @@ CONSTANTS
   SameAs = {}
   Reclaim = FALSE
   ResetOnFail = FALSE
+  ResetCreate = FALSE
+  RelScope = "fail"
   CanTick = FALSE
   ShortClaim = FALSE
   Emit = FALSE
